@@ -33,7 +33,7 @@ PROBES = {
             'stream-remap', 'newresolve', 'circuit-failed', 'stream-failed', 'segmented-delivery', 'split-inside-crlf'],
     'C08': ['listener-added-after-object-exists', 'listener-removed', 'wait-requested-after-deciding-event',
             'wait-requested-before-deciding-event', 'ack-before-event', 'event-before-ack', 'close-never-happens',
-            'repeated-close-request', 'when-built-fails', 'when-built-succeeds', 'per-object-listener',
+            'repeated-close-request', 'when-built-fails', 'when-built-succeeds', 'per-object-listener', 'listener-removed-in-callback',
             'circuit-closed-under-attached-streams', 'segmented-delivery'],
     'C09': ['attacher-returns-built', 'attacher-returns-unbuilt', 'attacher-returns-unknown', 'attacher-returns-noncircuit',
             'attacher-returns-none', 'attacher-returns-do-not-attach', 'attacher-deferred', 'attacher-coroutine',
@@ -227,24 +227,30 @@ class CircListener(object):
         self.run = run
         self.lid = lid
         self.calls = []         # (real circuit object, name, detail)
+        self.remove_in_callback = False
+
+    def _rec(self, obj, name, detail):
+        self.calls.append((obj, name, detail))
+        if self.remove_in_callback:
+            self.run.self_remove(self, obj)
 
     def circuit_new(self, circuit):
-        self.calls.append((circuit, 'new', None))
+        self._rec(circuit, 'new', None)
 
     def circuit_launched(self, circuit):
-        self.calls.append((circuit, 'launched', None))
+        self._rec(circuit, 'launched', None)
 
     def circuit_extend(self, circuit, router):
-        self.calls.append((circuit, 'extend', router.id_hex))
+        self._rec(circuit, 'extend', router.id_hex)
 
     def circuit_built(self, circuit):
-        self.calls.append((circuit, 'built', None))
+        self._rec(circuit, 'built', None)
 
     def circuit_closed(self, circuit, **kw):
-        self.calls.append((circuit, 'closed', kw))
+        self._rec(circuit, 'closed', kw)
 
     def circuit_failed(self, circuit, **kw):
-        self.calls.append((circuit, 'failed', kw))
+        self._rec(circuit, 'failed', kw)
 
 
 class StreamListener(object):
@@ -252,24 +258,30 @@ class StreamListener(object):
         self.run = run
         self.lid = lid
         self.calls = []
+        self.remove_in_callback = False
+
+    def _rec(self, obj, name, detail):
+        self.calls.append((obj, name, detail))
+        if self.remove_in_callback:
+            self.run.self_remove(self, obj)
 
     def stream_new(self, stream):
-        self.calls.append((stream, 'new', None))
+        self._rec(stream, 'new', None)
 
     def stream_succeeded(self, stream):
-        self.calls.append((stream, 'succeeded', None))
+        self._rec(stream, 'succeeded', None)
 
     def stream_attach(self, stream, circuit):
-        self.calls.append((stream, 'attach', circuit))
+        self._rec(stream, 'attach', circuit)
 
     def stream_detach(self, stream, **kw):
-        self.calls.append((stream, 'detach', kw))
+        self._rec(stream, 'detach', kw)
 
     def stream_closed(self, stream, **kw):
-        self.calls.append((stream, 'closed', kw))
+        self._rec(stream, 'closed', kw)
 
     def stream_failed(self, stream, **kw):
-        self.calls.append((stream, 'failed', kw))
+        self._rec(stream, 'failed', kw)
 
 
 def _declare_listeners():
@@ -975,6 +987,7 @@ class Reg(object):
         self.excluded = set()       # model objects it was unlistened from (global listeners)
         self.active = True
         self.seen = 0               # how many of double.calls were already compared
+        self.remove_points = {}     # model object -> index in double.calls after which it had unlistened itself
 
 
 class Wait(object):
@@ -1005,6 +1018,7 @@ class C08Run(StateRun):
         self.listener_ops = ch.draw(self.P.get('max_listener_ops', 8) + 1, 'nlops')
         self.wait_ops = ch.draw(self.P.get('max_waits', 12) + 1, 'nwaits')
         self.note_widx = []
+        self.step_self_removed = set()
         self.sim.add_source(self.c08_actions)
 
     def finished(self):
@@ -1045,6 +1059,8 @@ class C08Run(StateRun):
         kind = ch.pick(['circ', 'stream'], 'lkind')
         lid = len(self.regs)
         dbl = CircListener(self, lid) if kind == 'circ' else StreamListener(self, lid)
+        if ch.chance(1, 4, 'selfremove') and sim.gate('listener-removed-in-callback'):
+            dbl.remove_in_callback = True
         self.doubles[lid] = dbl
         objs = sorted((m.circs if kind == 'circ' else m.streams).values(), key=lambda o: o.id)
         if objs and ch.chance(1, 3, 'perobj'):
@@ -1069,6 +1085,27 @@ class C08Run(StateRun):
                 self.state.add_stream_listener(dbl)
         self.regs.append(r)
 
+    def self_remove(self, dbl, real):
+        """a listener double unlistens itself from `real` from inside a notification"""
+        mobj = None
+        pool = self.model.all_circs if isinstance(dbl, CircListener) else self.model.all_streams
+        for o in pool:
+            if o.real is real:
+                mobj = o
+        if mobj is None or mobj.gone:
+            return          # object not yet known to the reference interpreter (created in this very chunk)
+        r = self.regs[dbl.lid] if dbl.lid < len(self.regs) else None
+        if r is None or not self.applies(r, r.kind, mobj) or mobj in r.remove_points:
+            return
+        if dbl not in real.listeners:
+            return
+        self.sim.probe('listener-removed-in-callback')
+        self.sim.log('unlisten-in-callback', dbl.lid, r.kind, mobj.id)
+        r.remove_points[mobj] = len(dbl.calls)
+        self.step_self_removed.add(mobj)
+        dbl.remove_in_callback = False      # once per listener
+        real.unlisten(dbl)
+
     def applies(self, r, kind, mobj):
         if not r.active or r.kind != kind:
             return False
@@ -1083,14 +1120,21 @@ class C08Run(StateRun):
             return
         for r in self.regs:
             dbl = self.doubles[r.lid]
+            base = r.seen
             got = dbl.calls[r.seen:]
             r.seen = len(dbl.calls)
             exp = []
             for (kind, mobj, name, detail) in new_notes:
                 if kind == r.kind and self.applies_at_note(r, kind, mobj, name):
                     exp.append((mobj, name, detail))
-            self.compare_calls(r, got, exp)
-        # objects that went away are no longer reachable by later per-object registration
+            self.compare_calls(r, got, exp, base)
+            for mobj in list(r.remove_points):
+                if r.scope == 'global':
+                    r.excluded.add(mobj)
+                else:
+                    r.active = False
+                del r.remove_points[mobj]
+        self.step_self_removed = set()
         self.check_waits(final=False)
 
     def applies_at_note(self, r, kind, mobj, name):
@@ -1098,15 +1142,22 @@ class C08Run(StateRun):
             return False
         return True
 
-    def compare_calls(self, r, got, exp):
+    def compare_calls(self, r, got, exp, base=0):
         sim = self.sim
         gi = 0
         for (mobj, name, detail) in exp:
+            if mobj in r.remove_points and base + gi >= r.remove_points[mobj]:
+                continue        # it had unlistened itself from this object by then
             if name == 'newresolve':
                 # may notify 'new', 'succeeded' or nothing, at most once (Appendix A.4)
                 if gi < len(got) and got[gi][0] is mobj.real and got[gi][1] in ('new', 'succeeded'):
                     gi += 1
                 continue
+            if (gi >= len(got) or got[gi][0] is not mobj.real or got[gi][1] != name) and mobj in self.step_self_removed \
+                    and mobj not in r.remove_points:
+                sim.fail('C08.listener-skipped-when-another-unlistens-during-notification-%s' % r.kind,
+                         'listener %d missed %s of %s %d: another listener removed itself from that %s inside the same round of notifications; heard %r' % (
+                             r.lid, name, r.kind, mobj.id, r.kind, self.fmt(got)))
             if gi >= len(got):
                 sim.fail('C08.notification-missing-%s-%s' % (r.kind, name),
                          'listener %d (%s) did not hear %s of %s %d; it heard %r' % (
